@@ -45,13 +45,14 @@ func (q *DedupQueue) GetChunk(id ChunkID) (*Chunk, error) {
 	// This request is the first one for this chunk, execute as normal
 	b, err := q.store.GetChunk(id)
 
+	// The upstream request has returned: drop it from the queue first, so that a caller arriving
+	// from here on starts a request of its own instead of being handed a result that was
+	// produced before its call began (this also avoids keeping the data in memory)
+	q.getChunkQueue.delete(id)
+
 	// Signal to any others that wait for us that we're done, they'll use our data
 	// and don't need to hit the store themselves
 	req.markDone(b, err)
-
-	// We're done, drop the request from the queue to avoid keeping all the chunk data
-	// in memory after the request is done
-	q.getChunkQueue.delete(id)
 
 	return b, err
 }
@@ -67,12 +68,14 @@ func (q *DedupQueue) HasChunk(id ChunkID) (bool, error) {
 	// This request is the first one for this chunk, execute as normal
 	hasChunk, err := q.store.HasChunk(id)
 
+	// The upstream request has returned: drop it from the queue first, so that a caller arriving
+	// from here on starts a request of its own instead of being handed a result that was
+	// produced before its call began (this also avoids keeping the data in memory)
+	q.hasChunkQueue.delete(id)
+
 	// Signal to any others that wait for us that we're done, they'll use our data
 	// and don't need to hit the store themselves
 	req.markDone(hasChunk, err)
-
-	// We're done, drop the request from the queue to avoid keeping all in memory
-	q.hasChunkQueue.delete(id)
 	return hasChunk, err
 }
 
